@@ -139,7 +139,13 @@ func snapshotAll(w *World) map[string]map[string]string {
 }
 
 // Execute runs one spec to completion.
+var execCount int
+
 func Execute(t *testing.T, spec *RunSpec) *Result {
+	// garbage is collected between runs, at a point that depends on the run count only
+	if execCount++; execCount%64 == 0 {
+		runtime.GC()
+	}
 	s := newSim(t, spec)
 	res := &Result{Spec: spec, Sim: s}
 	bp := s.Run(func() {
